@@ -235,6 +235,37 @@ pub fn tables() -> Vec<Case> {
             out.push(stmt_case("expr.unary", format!("{} of ({})", utext, o.text), lx, un(unt, bin(o, ref_("a"), ref_("b")))));
         }
     }
+    // unary minus written as an operator in front of a numeric literal (a sign that may be separated from the
+    // number by white space or a comment): alone, as the left and as the right operand
+    for (num, is_real) in [("7", false), ("2.5", true)] {
+        let lit_nt = |neg: bool| -> NT {
+            if is_real {
+                n("Real", vec![("v", NT::F((if neg { -2.5f64 } else { 2.5f64 }).to_bits())), ("type", NT::Nil)])
+            } else if neg {
+                int_neg(7)
+            } else {
+                int(7)
+            }
+        };
+        let mut lx = Lx::new();
+        lx.push(Lexeme::new("-", Class::Op).soft());
+        lx.num(num);
+        out.push(stmt_case("expr.unary", format!("- literal {}", num), lx, lit_nt(true)));
+        for o in [&OPS[10], &OPS[12]] {
+            let mut lx = Lx::new();
+            lx.push(Lexeme::new("-", Class::Op).soft());
+            lx.num(num);
+            op_lex(&mut lx, o);
+            lx.id("b");
+            out.push(stmt_case("expr.unary", format!("- literal {} left {}", num, o.text), lx, bin(o, lit_nt(true), ref_("b"))));
+            let mut lx = Lx::new();
+            lx.id("b");
+            op_lex(&mut lx, o);
+            lx.push(Lexeme::new("-", Class::Op).soft());
+            lx.num(num);
+            out.push(stmt_case("expr.unary", format!("- literal {} right {}", num, o.text), lx, bin(o, ref_("b"), lit_nt(true))));
+        }
+    }
     // a unary operator on a parenthesised group used as an operand of another binary operator,
     // and as a call argument: -(a op1 b) op2 c ; c op2 -(a op1 b) ; Fn(-(a op1 b)) op2 c
     let menu2: Vec<&Op> = [0usize, 2, 4, 6, 10, 11, 12, 13, 15].iter().map(|i| &OPS[*i]).collect();
